@@ -663,6 +663,19 @@ fn main() {
                 }
             }
         }
+        "lexprobe" => {
+            // developer aid: lexical diagnostics (token start, token text, message) of each line of stdin
+            let mut input = String::new();
+            std::io::Read::read_to_string(&mut std::io::stdin(), &mut input).unwrap();
+            for line in input.lines() {
+                let l = oq3_parser::LexedStr::new(line);
+                let errs: Vec<String> = l
+                    .errors()
+                    .map(|(i, m)| format!("{}:{:?}:{}", l.text_range(i).start, l.text(i), m))
+                    .collect();
+                println!("{:?} => {:?}", line, errs);
+            }
+        }
         "printcheck" => {
             // S4 (C12): the consumer of the spans. After the analysis of a static world,
             // `print_errors()` renders every diagnostic with ariadne, re-reading the files through
